@@ -5,6 +5,9 @@ pub use self::mapped_page_table::{MappedPageTable, PageTableFrameMapping};
 pub use self::offset_page_table::OffsetPageTable;
 #[cfg(all(feature = "instructions", target_arch = "x86_64"))]
 pub use self::recursive_page_table::{InvalidPageTable, RecursivePageTable};
+#[cfg(all(feature = "verif_hooks", feature = "instructions", target_arch = "x86_64"))]
+#[doc(hidden)]
+pub use self::recursive_page_table::verif_hooks as verif_recursive_hooks;
 
 use crate::structures::paging::{
     frame_alloc::{FrameAllocator, FrameDeallocator},
